@@ -12,7 +12,7 @@ import zlib
 import numpy as np
 import pandas as pd
 
-GEN_VERSION = 5
+GEN_VERSION = 6
 
 STATES = ["AA", "BB", "CC", "DD"]
 CLASSES = ["urban", "suburban", "rural", "exurb"]
@@ -143,11 +143,16 @@ def make_election(rng, o=None):
     if o.get("tiny_county", bool(rng.random() < 0.15)) and not equal_baseline and len(df) > 12:
         # a county of hamlets: one to three baseline voters per unit (predicted turnout of a group can be below 1)
         cty = df.county_fips.iloc[int(rng.integers(0, len(df)))]
-        for j in df.index[df.county_fips == cty]:
+        single = bool(rng.random() < 0.5)  # only one hamlet with voters: the whole county can predict < 1 vote
+        for n_, j in enumerate(df.index[df.county_fips == cty]):
             bt = int(rng.integers(1, 4))
             bd = int(rng.integers(0, bt + 1))
             tt = int(rng.integers(0, 4))
             td = int(rng.integers(0, tt + 1))
+            if single and n_ > 0:
+                bt = bd = tt = td = 0
+            elif single:
+                bt, bd = 1, int(rng.integers(0, 2))
             df.loc[j, ["baseline_turnout", "baseline_dem", "baseline_gop", "t_turnout", "t_dem", "t_gop"]] = [
                 bt, bd, bt - bd, tt, td, tt - td]
     if n_zero and len(df) > 10:
